@@ -220,6 +220,8 @@ def d3(ck: Check) -> None:
         return None
 
     pc = fm.pc(cn, atomize=atomize)
+    # the target that is classified against is the caller's target
+    tgt_rebound = [d_ for d_ in fm.cfg.reaching_defs(tgt, cn) if d_.kind != "entry"]
     ref = logic.Or(logic.Not(logic.B("CONSISTENT")), logic.And(logic.Not(logic.B("GOAL")), logic.B("MINIMAL")))
     extra = [a for a in logic.atoms(pc) if a[0] != "b" or a[1] not in ("CONSISTENT", "GOAL", "MINIMAL")]
     try:
@@ -231,6 +233,9 @@ def d3(ck: Check) -> None:
         probs.append(f"a node is classified as forbidden under `{logic.show(pc)[:200]}`; expected exactly: it does not intersect the "
                      f"target, or it is a minimal trap space that is not inside the target (argument order of is_subspace/intersect "
                      f"matters: space first, target second)")
+    if tgt_rebound:
+        probs.append(f"line {tgt_rebound[0].lineno}: the target `{tgt}` is re-bound before the nodes are classified: a node whose space "
+                     f"disagrees with the caller's target on a dropped entry counts as consistent")
     if text(ad.args[0]) != s:
         probs.append("the classified node is not the one added to the hot set")
     if loops and text(loops[0].iter) != f"{sdp}.node_ids()":
@@ -430,6 +435,54 @@ def d3(ck: Check) -> None:
             if ok_:
                 first = n
                 used.add(via)
+    # the classification is made over the target-directed expansion: succession_control asks for it unconditionally, and
+    # successions_to_target runs it exactly when asked, with the caller's target
+    sc = ck.prog.fm(CTRL, "succession_control")
+    for c_ in own_walk(sc.f.node):
+        if isinstance(c_, ast.Call) and callee_name(c_) == "successions_to_target":
+            ed = call_arg(c_, f.params().index("expand_diagram"), "expand_diagram") if "expand_diagram" in f.params() else None
+            dflt_true = False
+            if ed is None and "expand_diagram" in f.params():
+                a__ = f.node.args
+                pos__ = a__.posonlyargs + a__.args
+                dd = dict(zip([x.arg for x in pos__[len(pos__) - len(a__.defaults):]], a__.defaults))
+                dd.update({x.arg: d for x, d in zip(a__.kwonlyargs, a__.kw_defaults) if d is not None})
+                dflt_true = is_true(dd.get("expand_diagram"))
+            if not (is_true(ed) or dflt_true):
+                probs.append(f"line {c_.lineno}: succession_control asks for the target-directed expansion only under "
+                             f"`{text(ed) if ed is not None else '?'}`: on a diagram that is only partly expanded the stubs count as "
+                             f"end points or hide forbidden nodes, and successions are missing or wrong")
+    exp_calls = [c_ for c_ in own_walk(f.node) if isinstance(c_, ast.Call) and callee_name(c_) == "expand_to_target"]
+    if "expand_diagram" in f.params():
+        if not exp_calls:
+            probs.append("successions_to_target never runs the target-directed expansion")
+        for c_ in exp_calls:
+            pc_ = fm.pc(fm.cfgn(c_))
+            ta = call_arg(c_, 0, "target")
+            if not logic.equivalent(pc_, logic.B("T:expand_diagram")):
+                probs.append(f"line {c_.lineno}: the expansion runs under `{logic.show(pc_)[:60]}`, not exactly when expand_diagram is set")
+            if ta is None or text(ta) != tgt or any(d_.kind != "entry" for d_ in fm.cfg.reaching_defs(tgt, fm.cfgn(c_))):
+                probs.append(f"line {c_.lineno}: the diagram is not expanded towards the caller's target")
+    # ... and among those, a node is an end point only if SOME parent reaches a forbidden node (otherwise one can stop
+    # at the parent): the filter is an existential test over the predecessors
+    par_tests = []
+    for n in own_walk(f.node):
+        if isinstance(n, ast.Continue) and isinstance(fm.f.parents.get(n), ast.If) and n in fm.f.parents[n].body:
+            t0 = fm.deref(fm.f.parents[n].test, fm.cfgn(fm.f.parents[n]))
+            q = logic.quantifier(t0.operand) if isinstance(t0, ast.UnaryOp) and isinstance(t0.op, ast.Not) else None
+            q_pos = logic.quantifier(t0)
+            for qq, negated in ((q, True), (q_pos, False)):
+                if qq is not None and isinstance(qq[1], ast.Call) and callee_name(qq[1]) == "predecessors":
+                    par_tests.append((n, qq, negated))
+    for n, qq, negated in par_tests:
+        exists, it_, var_, cond_ = qq
+        # skipped  <=>  not exists parent reaching hot
+        okq = negated and exists and isinstance(var_, str) and reach_form(cond_, var_, fm.cfgn(fm.f.parents[n]))[0]
+        if not okq:
+            probs.append(f"line {fm.f.parents[n].lineno}: a node is dropped from the end points unless "
+                         f"{'some' if exists else 'every'} parent {'' if negated else 'does not '}reach(es) a forbidden node; it must be "
+                         f"kept as soon as SOME parent does (with `all`, a node below one safe and one unsafe parent is lost and the "
+                         f"paths through the unsafe parent get no succession)")
     if first is None:
         probs.append("nodes that reach a forbidden node are not excluded from the end points (no recognised test "
                      "`descendants-or-self & forbidden` / `node in reach-set` skips them)")
